@@ -258,6 +258,32 @@ type replCase struct {
 	Res     map[string]json.RawMessage `json:"res"`
 }
 
+type replWant struct {
+	M    []int      `json:"m"` // partitions the ring is built over
+	Err  string     `json:"err"`
+	Sets []replSetJ `json:"sets"`
+}
+
+type replView struct {
+	name string
+	r    *ring.PartitionInstanceRing
+}
+
+// sameMembers: spec partition ids (1-based) vs real ids (0-based, sorted).
+func sameMembers(m []int, ids []int32) bool {
+	if len(m) != len(ids) {
+		return false
+	}
+	mm := append([]int(nil), m...)
+	sort.Ints(mm)
+	for i := range mm {
+		if mm[i]-1 != int(ids[i]) {
+			return false
+		}
+	}
+	return true
+}
+
 type staticReader struct{ r *ring.PartitionRing }
 
 func (s staticReader) PartitionRing() *ring.PartitionRing { return s.r }
@@ -319,9 +345,17 @@ func (rp *replayer) repl(line []byte) error {
 				}
 			}
 			pdesc := ring.NewPartitionRingDesc()
-			pstates := []ring.PartitionState{ring.PartitionActive, ring.PartitionPending, ring.PartitionInactive}
+			// partition states do not matter for the whole ring; they decide which partitions a shard keeps, so they
+			// rotate through all mixes (inactive since 2 s: inside the long look-back, outside the short one)
+			pstates := []ring.PartitionState{ring.PartitionActive, ring.PartitionActive, ring.PartitionInactive, ring.PartitionPending}
+			rot := rp.counts[mode]
 			for p := 1; p <= np; p++ {
-				pdesc.AddPartition(int32(p-1), pstates[(p-1)%3], now)
+				st := pstates[rot%len(pstates)]
+				rot /= len(pstates)
+				if mode == "multi" {
+					st = pstates[p%len(pstates)]
+				}
+				pdesc.AddPartition(int32(p-1), st, now.Add(-2*time.Second))
 			}
 			for o := 1; o <= no; o++ {
 				if p := c.OwnerOf[o-1]; p != 0 {
@@ -352,57 +386,96 @@ func (rp *replayer) repl(line []byte) error {
 				for opName, raw := range c.Res {
 					op := opByName[opName]
 					if mode == "repl" {
-						var want struct {
-							Err  string     `json:"err"`
-							Sets []replSetJ `json:"sets"`
-						}
-						if err := json.Unmarshal(raw, &want); err != nil {
+						// expected result for every subset M of partitions a ring may be built over
+						var wants []replWant
+						if err := json.Unmarshal(raw, &wants); err != nil {
 							res.Fatal = "bad case: " + err.Error()
 							return
 						}
-						if corrupt > 0 && res.Cases == corrupt && want.Err == "none" {
-							want.Sets[0].Muz++
-						}
-						pir := ring.NewPartitionInstanceRing(staticReader{pr}, ir, time.Duration(hbT)*time.Second)
-						got, gerr := pir.GetReplicationSetsForOperation(op)
-						sig := fmt.Sprintf("repl:%s want=%s", opName, want.Err)
-						switch want.Err {
-						case "unhealthy":
-							if !errors.Is(gerr, ring.ErrTooManyUnhealthyInstances) {
-								res.Mismatch(abs.Mismatch{Sig: sig, Case: c, Got: map[string]any{"sets": got, "err": fmt.Sprint(gerr)}, Want: "ErrTooManyUnhealthyInstances"})
-							}
-						case "empty":
-							if !errors.Is(gerr, ring.ErrEmptyRing) {
-								res.Mismatch(abs.Mismatch{Sig: sig, Case: c, Got: map[string]any{"sets": got, "err": fmt.Sprint(gerr)}, Want: "ErrEmptyRing"})
-							}
-						default:
-							if gerr != nil {
-								res.Mismatch(abs.Mismatch{Sig: sig + " got=error", Case: c, Got: gerr.Error(), Want: want.Sets})
-								break
-							}
-							// sets carry no partition id: owner sets of distinct partitions are disjoint and non-empty
-							ok := len(got) == len(want.Sets)
-							used := make([]bool, len(got))
-							for _, ws := range want.Sets {
-								wids := []string{}
-								for _, o := range ws.Instances {
-									wids = append(wids, names[o])
+						if corrupt > 0 && res.Cases == corrupt {
+							for wi := range wants {
+								if wants[wi].Err == "none" {
+									wants[wi].Sets[0].Muz++
 								}
-								sort.Strings(wids)
-								found := false
-								for gi, gs := range got {
-									if !used[gi] && sameStrings(idsOf(gs), wids) {
-										used[gi] = true
-										found = gs.MaxUnavailableZones == ws.Muz && gs.MaxErrors == ws.MaxErrors && gs.ZoneAwarenessEnabled == ws.ZoneAware
-										break
+							}
+						}
+						hb := time.Duration(hbT) * time.Second
+						whole := ring.NewPartitionInstanceRing(staticReader{pr}, ir, hb)
+						views := []replView{{"whole", whole}}
+						// every PartitionInstanceRing the API hands out: shards of full size (0) and of size 1, without
+						// look-back, with a look-back shorter than the heartbeat timeout and with a longer one
+						for _, size := range []int{0, 1} {
+							if sub, err := whole.ShuffleShard("tenant-a", size); err == nil {
+								views = append(views, replView{fmt.Sprintf("shard size=%d", size), sub})
+							} else {
+								res.Mismatch(abs.Mismatch{Sig: "repl:ShuffleShard error", Case: c, Got: err.Error(), Want: "sub-ring"})
+							}
+							for _, lb := range []struct {
+								name string
+								d    time.Duration
+							}{{"lookback<timeout", hb / 2}, {"lookback>timeout", time.Hour}} {
+								if sub, err := whole.ShuffleShardWithLookback("tenant-a", size, lb.d, now); err == nil {
+									views = append(views, replView{fmt.Sprintf("shard size=%d %s", size, lb.name), sub})
+								} else {
+									res.Mismatch(abs.Mismatch{Sig: "repl:ShuffleShardWithLookback error", Case: c, Got: err.Error(), Want: "sub-ring"})
+								}
+							}
+						}
+						for _, v := range views {
+							members := v.r.PartitionRing().PartitionIDs()
+							var want *replWant
+							for wi := range wants {
+								if sameMembers(wants[wi].M, members) {
+									want = &wants[wi]
+								}
+							}
+							if want == nil {
+								res.Fatal = fmt.Sprintf("case has no expectation for members %v", members)
+								return
+							}
+							if len(members) < np {
+								rp.counts["repl sub-ring views"]++
+							}
+							got, gerr := v.r.GetReplicationSetsForOperation(op)
+							sig := fmt.Sprintf("repl:%s %s want=%s", v.name, opName, want.Err)
+							switch want.Err {
+							case "unhealthy":
+								if !errors.Is(gerr, ring.ErrTooManyUnhealthyInstances) {
+									res.Mismatch(abs.Mismatch{Sig: sig, Case: c, Got: map[string]any{"members": members, "sets": got, "err": fmt.Sprint(gerr)}, Want: "ErrTooManyUnhealthyInstances"})
+								}
+							case "empty":
+								if !errors.Is(gerr, ring.ErrEmptyRing) {
+									res.Mismatch(abs.Mismatch{Sig: sig, Case: c, Got: map[string]any{"members": members, "sets": got, "err": fmt.Sprint(gerr)}, Want: "ErrEmptyRing"})
+								}
+							default:
+								if gerr != nil {
+									res.Mismatch(abs.Mismatch{Sig: sig + " got=error", Case: c, Got: map[string]any{"members": members, "err": gerr.Error()}, Want: want.Sets})
+									break
+								}
+								// sets carry no partition id: owner sets of distinct partitions are disjoint and non-empty
+								ok := len(got) == len(want.Sets)
+								used := make([]bool, len(got))
+								for _, ws := range want.Sets {
+									wids := []string{}
+									for _, o := range ws.Instances {
+										wids = append(wids, names[o])
+									}
+									sort.Strings(wids)
+									found := false
+									for gi, gs := range got {
+										if !used[gi] && sameStrings(idsOf(gs), wids) {
+											used[gi] = true
+											found = gs.MaxUnavailableZones == ws.Muz && gs.MaxErrors == ws.MaxErrors && gs.ZoneAwarenessEnabled == ws.ZoneAware
+											break
+										}
+									}
+									if !found {
+										ok = false
 									}
 								}
-								if !found {
-									ok = false
+								if !ok {
+									res.Mismatch(abs.Mismatch{Sig: sig + " got=sets", Case: c, Got: map[string]any{"members": members, "sets": got}, Want: want.Sets})
 								}
-							}
-							if !ok {
-								res.Mismatch(abs.Mismatch{Sig: sig + " got=sets", Case: c, Got: got, Want: want.Sets})
 							}
 						}
 					} else {
